@@ -51,6 +51,8 @@ def gen_values(rng):
     r = rng.random()
     n = rng.randint(1, 4)
     if r < 0.04:
+        if rng.random() < 0.5:
+            return {"kind": "taglib", "v": rng.choice([["PREY", "PREDATOR"], ["A"], [], ["X", "Y", "Z"]])}
         return {"kind": "lookupgen", "v": [[rng.randint(0, 3), 1], [2, 3]]}
     if r < 0.15:
         return {"kind": "scalar", "v": rng.randint(-3, 9)}
@@ -72,6 +74,8 @@ def decode_values(spec, oneshot=True):
         return iter(list(v)) if k == "iter" else (x for x in list(v))
     if k in ("scalar", "str"):
         return v
+    if k == "taglib":
+        return W.stable_tags(v)           # a single value that happens to be a bundled tag library object
     if k == "lookupgen":
         return W.StableLookup([list(r_) for r_ in v])       # a single value that happens to be a bundled generator object
     if k == "list":
@@ -88,7 +92,7 @@ def decode_values(spec, oneshot=True):
 
 def as_list(spec):
     val = decode_values(spec)
-    if isinstance(val, (str, int, W.StableLookup)):
+    if isinstance(val, (str, int, W.StableLookup, W.StableTags)):
         return [val]
     return list(val)
 
@@ -253,7 +257,7 @@ def check_ledger(ctx, sc, E_sigs, expect_complete=True):
               lambda: f"executions {sorted(e['sig'] for e in led)} != product x repetitions {sorted(E_sigs)}")
     max_ts = sc["max_ts"]
     declared = [g[0] for g in sc["grid"]]
-    kinds_ = [s_["kind"] in ("scalar", "str", "lookupgen") for _, s_ in sc["grid"]]
+    kinds_ = [s_["kind"] in ("scalar", "str", "lookupgen", "taglib") for _, s_ in sc["grid"]]
     if any(single and not all(kinds_[:i]) for i, single in enumerate(kinds_)):
         ctx.probe("single_value_declared_after_a_collection")
     for e in led:
@@ -357,6 +361,12 @@ def one_batch(ctx, sc, fail, label):
             ctx.check(isinstance(val, want_exc), "error-replaced",
                       f"execution raised {fail.get('exc', 'BatchFailure')}, caller saw {type(val).__name__}: {val}")
             ctx.probe("fail_exc_" + fail.get("exc", "BatchFailure"))
+            # ... and a failed execution is not quietly tried again: nothing is executed more often than product x repetitions says
+            from collections import Counter as _C
+            built, planned = _C(e_["sig"] for e_ in W.LEDGER), _C(E)
+            over = {s_: n_ for s_, n_ in built.items() if n_ > planned.get(s_, 0)}
+            ctx.check(not over, "executed-more-than-once",
+                      lambda: f"models built {dict(over)} times, planned {[planned.get(s_, 0) for s_ in over]} (failing execution #{k}: {sig})")
             return {"comp": comp, "failed": True}
     lack = sc.get("lacking") if fail is None else None
     if lack and form not in ("none",) and lack["name"] in sc["collectors"]["names"] and any(W.lacks(s_, lack) for s_ in E) and \
